@@ -197,3 +197,22 @@ func SortedKeys[V any](m map[string]V) []string {
 	sort.Strings(ks)
 	return ks
 }
+
+// OtherBytes returns n tape-determined bytes guaranteed to differ from orig
+// (also on zeroed replay tapes, where two "random" values would coincide).
+func (t *Tape) OtherBytes(label string, orig []byte, n int) []byte {
+	b := t.Bytes(label, n)
+	if len(orig) == len(b) {
+		same := true
+		for i := range b {
+			if b[i] != orig[i] {
+				same = false
+				break
+			}
+		}
+		if same && n > 0 {
+			b[0] ^= 0x5a
+		}
+	}
+	return b
+}
